@@ -60,12 +60,37 @@ def main():
     b2 = copy.deepcopy(rec); b2['id'] = 'e_hook'; b2['obs']['applies'] = b2['obs']['applies'][1:]
     b3 = copy.deepcopy(rec); b3['id'] = 'e_visit'; b3['obs']['readouts'][1]['sub'] = 1
     b4 = copy.deepcopy(rec); b4['id'] = 'e_str'; b4['obs']['readouts'][0]['str'] = b4['obs']['readouts'][0]['str'][::-1] if b4['obs']['readouts'][0]['str'] != b4['obs']['readouts'][0]['str'][::-1] else [1 - x for x in b4['obs']['readouts'][0]['str']]
-    v, _ = core.validate('Conform_Exec', [rec, b1, b2, b3, b4], wd)
+    # hook H3b (state after every gate application) and hook H2 (discovery walk): corrupt one logged field, drop one event
+    b5 = copy.deepcopy(rec); b5['id'] = 'e_step'; b5['obs']['applied'][0]['vec'][0] = [7, 0]
+    b6 = copy.deepcopy(rec); b6['id'] = 'e_nostep'; b6['obs']['applied'] = b6['obs']['applied'][:-1]
+    b7 = copy.deepcopy(rec); b7['id'] = 'e_disc'; b7['obs']['discover'][1]['open'] = not b7['obs']['discover'][1]['open']
+    b8 = copy.deepcopy(rec); b8['id'] = 'e_nodisc'; b8['obs']['discover'] = b8['obs']['discover'][:-1]
+    v, _ = core.validate('Conform_Exec', [rec, b1, b2, b3, b4, b5, b6, b7, b8], wd)
     good &= rec['id'] not in v
     good &= expect('Conform_Exec: corrupted amplitude', v, 'e_vec', 'vector')
     good &= expect('Conform_Exec: dropped H3 apply event', v, 'e_hook', 'applied_gates')
     good &= expect('Conform_Exec: readout attributed to another subcircuit', v, 'e_visit', 'visits')
     good &= expect('Conform_Exec: corrupted readout string', v, 'e_str', 'as_str')
+    good &= expect('Conform_Exec: corrupted state after a gate (H3b)', v, 'e_step', 'step_vectors')
+    good &= expect('Conform_Exec: dropped H3b applied event', v, 'e_nostep', 'applied_count')
+    good &= expect('Conform_Exec: corrupted discovery state (H2)', v, 'e_disc', 'discover_trace')
+    good &= expect('Conform_Exec: dropped discovery event (H2)', v, 'e_nodisc', 'discover_trace')
+    # --- validation comments: corrupt the written text, the data read back, the answer of the comparison
+    from . import valid
+    vtxt = '// EXPECTED READOUTS\n// 10 1 0\n// 01 2 1\n\n// EXPECTED PROBABILITIES\n// SUBCIRCUIT 0\n// 00 0 0.0\n// 10 1 1.0\n// 01 2 0.0\n// 11 3 0.0\n' \
+           '// SUBCIRCUIT 1\n// 00 0 0.0\n// 10 1 0.0\n// 01 2 1.0\n// 11 3 0.0'
+    base = {'nq': 2, 'rd': [{'sub': 0, 'value': 1}, {'sub': 1, 'value': 2}], 'pr': [[0, valid.PSCALE, 0, 0], [0, 0, valid.PSCALE, 0]]}
+    g = dict(base, id='vg', site='vgen', lines=valid.tokenize(vtxt), obs={'cls': 'ok'})
+    g_bad = dict(g, id='vg_bad', lines=valid.tokenize(vtxt.replace('// 01 2 1', '// 01 2 0')))
+    r = dict(valid.read_case('vr', vtxt), nq=2)
+    r_bad = copy.deepcopy(r); r_bad['id'] = 'vr_bad'; r_bad['obs']['meas'][1]['v'] = 3
+    k = dict(base, id='vk', site='vcheck', lines=valid.tokenize(vtxt), obs={'cls': 'ok', 'validated': ['measurements agree', 'probabilities agree'], 'msg': ''})
+    k_bad = dict(k, id='vk_bad', lines=valid.tokenize(vtxt.replace('// 10 1 0', '// 10 1 1')))       # differs, yet "accepted"
+    v, _ = core.validate('Conform_Validate', [g, g_bad, r, r_bad, k, k_bad], wd)
+    good &= not ({'vg', 'vr', 'vk'} & set(v))
+    good &= expect('Conform_Validate: written line with another subcircuit', v, 'vg_bad', 'written_lines')
+    good &= expect('Conform_Validate: corrupted data read back', v, 'vr_bad', 'read_readouts')
+    good &= expect('Conform_Validate: a difference that was accepted', v, 'vk_bad', 'difference_rejected')
     core.cleanup('selftest')
     print('selftest', 'ok' if good else 'FAILED')
     return 0 if good else 2
